@@ -22,6 +22,7 @@ type ProgOpts struct {
 	ErrStmts   bool // occasionally a statement that fails at run time
 	NoSqrtFold bool
 	BigInts    bool // integer literals around the inline limit
+	PoolShift  bool // 0-40 dummy assignments first, so that names land on every constant-pool index
 	StringIter bool
 }
 
@@ -110,9 +111,9 @@ func (g *pg) intExpr(depth int) lang.Expr {
 		}
 	case 7:
 		if g.o.OptBias {
-			// constant arithmetic the optimizer can fold
-			op := rapid.SampledFrom([]string{"+", "-", "*", "/"}).Draw(g.t, "cop")
-			return lang.Binary{Op: op, L: g.intLit(), R: g.intLit()}
+			// constant arithmetic the optimizer can fold (or must not fold:
+			// negative and too-large intermediate results, any nesting shape)
+			return ConstTree(g.t, rapid.IntRange(1, 3).Draw(g.t, "cdepth"))
 		}
 	case 8:
 		return lang.Unary{Op: "-", X: g.intExpr(depth - 1)}
@@ -366,6 +367,10 @@ func (g *pg) stmt(depth int) []lang.Stmt {
 		return []lang.Stmt{lang.Assign{N: n, X: g.strExpr(1)}}
 	case k < 52 && depth > 0:
 		x := lang.If{C: g.cond(2), Then: g.block(depth - 1)}
+		if g.o.IncDec && len(asg) > 0 && g.chance("thenends", 30) {
+			// a block whose last instruction carries an operand (a name)
+			x.Then = append(x.Then, lang.IncDec{N: rapid.SampledFrom(asg).Draw(g.t, "endinc"), Op: rapid.SampledFrom([]string{"++", "--"}).Draw(g.t, "endop")})
+		}
 		switch g.pick("elsek", 4) {
 		case 0:
 			x.Else = g.block(depth - 1)
@@ -503,7 +508,7 @@ func (g *pg) switchStmt(depth int) lang.Stmt {
 		for j := 0; j < ne; j++ {
 			var e lang.Expr
 			switch {
-			case strSubj && g.chance("recase", 40):
+			case (strSubj && g.chance("recase", 40)) || (!strSubj && g.chance("recaseint", 12)):
 				e = lang.Lit{V: lang.Regexp(rapid.SampledFrom([]string{"a", "^Re:", "(?i)^re", "b$", "^$", "狐"}).Draw(g.t, "cre"))}
 			case strSubj:
 				e = g.strExpr(0)
@@ -610,6 +615,12 @@ func Program(t *rapid.T, o ProgOpts) *Prog {
 		}
 	}
 
+	if o.PoolShift {
+		n := rapid.IntRange(0, 40).Draw(t, "poolshift")
+		for i := 0; i < n; i++ {
+			prelude = append(prelude, lang.Assign{N: fmt.Sprintf("zz%d", i), X: lang.Lit{V: lang.Int(int64(i % 3))}})
+		}
+	}
 	// integer globals
 	nint := 2 + g.pick("nint", 3)
 	for i := 0; i < nint; i++ {
@@ -721,4 +732,47 @@ func VaryFields(t *rapid.T, fields []Binding) []Binding {
 		}
 	}
 	return out
+}
+
+
+// ConstTree draws an arithmetic tree over small integer literals only, in
+// any nesting shape; intermediate results may be negative or exceed the
+// inline-integer limit (which the optimizer must then leave alone).
+func ConstTree(t *rapid.T, depth int) lang.Expr {
+	lit := func() lang.Expr {
+		if Uniform(t, "cbig", 8) == 0 {
+			return lang.Lit{V: lang.Int(rapid.SampledFrom([]int64{255, 256, 300, 65533, 65534, 32767}).Draw(t, "cbigv"))}
+		}
+		return lang.Lit{V: lang.Int(rapid.Int64Range(0, 12).Draw(t, "clit"))}
+	}
+	if depth <= 0 {
+		return lit()
+	}
+	op := rapid.SampledFrom([]string{"+", "-", "*", "/", "+", "-", "*", "==", "!="}).Draw(t, "ctop")
+	var l, r lang.Expr
+	switch Uniform(t, "cshape", 4) {
+	case 0: // left-nested
+		l, r = ConstTree(t, depth-1), lit()
+	case 1: // right-nested
+		l, r = lit(), ConstTree(t, depth-1)
+	default:
+		l, r = ConstTree(t, depth-1), ConstTree(t, depth-1)
+	}
+	if op == "/" {
+		// keep constant division by zero rare but present
+		if Uniform(t, "cdivzero", 10) != 0 {
+			r = lang.Lit{V: lang.Int(rapid.Int64Range(1, 6).Draw(t, "cdiv"))}
+		}
+	}
+	if op == "==" || op == "!=" {
+		// comparisons yield booleans: only at the top of an arithmetic tree
+		return lang.Binary{Op: op, L: l, R: r}
+	}
+	if bl, ok := l.(lang.Binary); ok && (bl.Op == "==" || bl.Op == "!=") {
+		l = lit()
+	}
+	if br, ok := r.(lang.Binary); ok && (br.Op == "==" || br.Op == "!=") {
+		r = lit()
+	}
+	return lang.Binary{Op: op, L: l, R: r}
 }
